@@ -245,7 +245,7 @@ class Model:
     def resolve_class_expr(self, mod: Module, expr: ast.expr) -> Optional[ClassInfo]:
         return self._resolve_class(mod, expr)
 
-    def resolve_function(self, mod: Module, expr: ast.expr) -> Optional[FuncInfo]:
+    def resolve_function(self, mod: Module, expr: ast.expr, _depth: int = 0) -> Optional[FuncInfo]:
         """A module-level function of the package referenced by Name/Attribute."""
         q = mod.resolve(expr)
         if q is None:
@@ -255,6 +255,15 @@ class Model:
             m = self.modules.get(mname)
             if m is not None and fname in m.functions:
                 return m.functions[fname]
+            # module-level alias of a (static) method or function: `calcP = Projection.calcP`
+            if m is not None and fname in m.assigns and m.assign_counts.get(fname, 0) == 1 and _depth < 3:
+                v = m.assigns[fname]
+                if isinstance(v, ast.Attribute) and isinstance(v.value, (ast.Name, ast.Attribute)):
+                    k = self._resolve_class(m, v.value)
+                    if k is not None:
+                        return self.lookup_method(k, v.attr)
+                if isinstance(v, (ast.Name, ast.Attribute)):
+                    return self.resolve_function(m, v, _depth + 1)
             # re-exported through a package __init__
             if m is not None and fname in m.imports:
                 q2 = m.imports[fname]
